@@ -1,0 +1,49 @@
+// Hooks for external verification tooling.  Everything in this file
+// compiles to nothing unless BEEBTOOLS_VERIF is defined.  When it is
+// defined and the environment variable BEEBTOOLS_VERIF_TRACE_FD names
+// an open file descriptor, one-line event records are written to it.
+// The hooks never change the behaviour of the program.
+#ifndef INC_VERIF_HOOKS_H
+#define INC_VERIF_HOOKS_H 1
+
+#ifdef BEEBTOOLS_VERIF
+#include <stdio.h>
+#include <stdlib.h>
+#include <string.h>
+#include <unistd.h>
+
+static inline int beebtools_verif_fd(void)
+{
+  static int fd = -2;
+  if (fd == -2)
+    {
+      const char *s = getenv("BEEBTOOLS_VERIF_TRACE_FD");
+      fd = (s && *s) ? atoi(s) : -1;
+    }
+  return fd;
+}
+
+static inline void beebtools_verif_emit(const char *line)
+{
+  const int fd = beebtools_verif_fd();
+  if (fd >= 0)
+    {
+      ssize_t unused = write(fd, line, strlen(line));
+      (void)unused;
+    }
+}
+
+#define BEEBTOOLS_VERIF_TRACE(...)					\
+  do {									\
+    if (beebtools_verif_fd() >= 0)					\
+      {									\
+	char beebtools_verif_buf[512];					\
+	snprintf(beebtools_verif_buf, sizeof(beebtools_verif_buf), __VA_ARGS__); \
+	beebtools_verif_emit(beebtools_verif_buf);			\
+      }									\
+  } while (0)
+#else
+#define BEEBTOOLS_VERIF_TRACE(...) do { } while (0)
+#endif
+
+#endif
